@@ -34,7 +34,9 @@ def run(ctx, rep):
         tag = '%s [%s]' % (s.where(), r.entry)
         acquiring = (dW == 1 and r.hold != 'R') or (dW == 0 and dc == 1)
         in_ls = LS in r.stack
-        if acquiring and ds == 0 and r.hold in ('none',):
+        # (ds == 1: an acquire that takes the queue spinlock in the same step - the timed-out conditional waiter; it was not woken by an
+        # unlocker, so it is a barging thread like any other)
+        if acquiring and ds in (0, 1) and r.hold in ('none',):
             waited = in_ls and slept(r)
             if not waited:
                 reader = dc == 1
